@@ -50,6 +50,8 @@ _T = [
     ("pure", r"core::slice::|std::slice::|core::array::|std::array::", "slice/array methods"),
     ("pure", r"(std|alloc)::vec::|<std::vec::\w+<.*> as ", "Vec methods"),
     ("pure", r"core::str::|std::str::|(std|alloc)::string::|<T as std::string::ToString>::|<std::string::String as |<str as ", "str/String methods"),
+    ("pure", r"(std|core)::option::Option::<&(mut )?T>::(copied|cloned)$|std::prelude::v1::(Some|None|Ok|Err)$|(std|core)::(option::Option|result::Result)::(Some|None|Ok|Err)$", "Option<&T>::copied/cloned; enum constructors used as functions"),
+    ("pure", r"std::boxed::box_assume_init_into_vec_unsafe$|std::boxed::Box::<T(, A)?>::new_uninit", "internals of std's vec![] macro expansion (array literal moved into a Vec)"),
     ("pure", r"(std|core)::option::Option::<T>::|(std|core)::result::Result::<T, E>::|<std::option::Option<T> as |<std::result::Result<T, \w+> as ", "Option/Result combinators"),
     ("pure", r"(std|core)::clone::|<.* as (std|core)::clone::Clone>::", "Clone"),
     ("pure", r"(std|core)::cmp::|<.* as (std|core)::cmp::(PartialEq|PartialOrd|Ord|Eq)(<.*>)?>::", "comparisons"),
